@@ -9,29 +9,43 @@ import Mathlib.Analysis.SpecialFunctions.Pow.Real
 -/
 namespace Dashu.Model.Trans
 
-/-- what C11 requires of a result `r` with tolerance `u` and flag `exact` for the true value `v` -/
+/-- what C11 requires of a result `r` with tolerance `u` and flag `exact` for the true value `v`:
+    less than one ulp away (or equal: a zero result has no ulp), and flagged Exact only if equal -/
 def Within (r u : ℚ) (exact : Bool) (v : ℝ) : Prop :=
-  |(r : ℝ) - v| < (u : ℝ) ∧ (exact = true → (r : ℝ) = v)
+  (|(r : ℝ) - v| < (u : ℝ) ∨ (r : ℝ) = v) ∧ (exact = true → (r : ℝ) = v)
 
 /-- `Encloses e v`: the rational pair brackets the real `v` -/
 def Encloses (e : ℚ × ℚ) (v : ℝ) : Prop := (e.1 : ℝ) ≤ v ∧ v ≤ (e.2 : ℝ)
+
+theorem eq_of_point {lo hi r : ℚ} {v : ℝ} (h1 : (lo : ℝ) ≤ v) (h2 : v ≤ (hi : ℝ)) (c : lo = r ∧ hi = r) :
+    (r : ℝ) = v := by
+  obtain ⟨c1, c2⟩ := c
+  have c1' : (lo : ℝ) = (r : ℝ) := by exact_mod_cast c1
+  have c2' : (hi : ℝ) = (r : ℝ) := by exact_mod_cast c2
+  linarith [le_antisymm (c2' ▸ h2) (c1' ▸ h1)]
 
 theorem judge_certified {lo hi r u : ℚ} {exact : Bool} {v : ℝ} (hv : Encloses (lo, hi) v)
     (h : judge lo hi r u exact = .certified) : Within r u exact v := by
   unfold judge at h
   split_ifs at h with hc
-  obtain ⟨a, b, c⟩ := hc
-  have a' : (r : ℝ) - (u : ℝ) < (lo : ℝ) := by exact_mod_cast a
-  have b' : (hi : ℝ) < (r : ℝ) + (u : ℝ) := by exact_mod_cast b
+  obtain ⟨ab, c⟩ := hc
   obtain ⟨h1, h2⟩ := hv
   simp only at h1 h2
-  refine ⟨?_, ?_⟩
-  · rw [abs_lt]; constructor <;> linarith
-  · intro he
-    obtain ⟨c1, c2⟩ := c he
-    have c1' : (lo : ℝ) = (r : ℝ) := by exact_mod_cast c1
-    have c2' : (hi : ℝ) = (r : ℝ) := by exact_mod_cast c2
-    linarith [le_antisymm (c2' ▸ h2) (c1' ▸ h1)]
+  refine ⟨?_, fun he => eq_of_point h1 h2 (c he)⟩
+  rcases ab with ⟨a, b⟩ | c'
+  · left
+    have a' : (r : ℝ) - (u : ℝ) < (lo : ℝ) := by exact_mod_cast a
+    have b' : (hi : ℝ) < (r : ℝ) + (u : ℝ) := by exact_mod_cast b
+    rw [abs_lt]; constructor <;> linarith
+  · right; exact eq_of_point h1 h2 c'
+
+theorem ne_of_distinct {lo hi r : ℚ} {v : ℝ} (h1 : (lo : ℝ) ≤ v) (h2 : v ≤ (hi : ℝ)) (d : r < lo ∨ hi < r) :
+    (r : ℝ) ≠ v := by
+  rcases d with d | d
+  · have : (r : ℝ) < (lo : ℝ) := by exact_mod_cast d
+    intro h; linarith
+  · have : (hi : ℝ) < (r : ℝ) := by exact_mod_cast d
+    intro h; linarith
 
 theorem judge_violation {lo hi r u : ℚ} {exact : Bool} {v : ℝ} (hv : Encloses (lo, hi) v)
     (h : judge lo hi r u exact = .violation) : ¬ Within r u exact v := by
@@ -40,16 +54,16 @@ theorem judge_violation {lo hi r u : ℚ} {exact : Bool} {v : ℝ} (hv : Enclose
   obtain ⟨h1, h2⟩ := hv
   simp only at h1 h2
   rintro ⟨w1, w2⟩
-  rw [abs_lt] at w1
-  rcases hd with d | d | ⟨he, d | d⟩
-  · have : (hi : ℝ) ≤ (r : ℝ) - (u : ℝ) := by exact_mod_cast d
-    linarith
-  · have : (r : ℝ) + (u : ℝ) ≤ (lo : ℝ) := by exact_mod_cast d
-    linarith
-  · have : (r : ℝ) < (lo : ℝ) := by exact_mod_cast d
-    linarith [w2 he]
-  · have : (hi : ℝ) < (r : ℝ) := by exact_mod_cast d
-    linarith [w2 he]
+  rcases hd with ⟨far, dist⟩ | ⟨he, dist⟩
+  · rcases w1 with w1 | w1
+    · rw [abs_lt] at w1
+      rcases far with d | d
+      · have : (hi : ℝ) ≤ (r : ℝ) - (u : ℝ) := by exact_mod_cast d
+        linarith
+      · have : (r : ℝ) + (u : ℝ) ≤ (lo : ℝ) := by exact_mod_cast d
+        linarith
+    · exact ne_of_distinct h1 h2 dist w1
+  · exact ne_of_distinct h1 h2 dist (w2 he)
 
 theorem refine_sound (encl : ℕ → ℚ × ℚ) (r u : ℚ) (exact : Bool) (v : ℝ)
     (hencl : ∀ n, Encloses (encl n) v) :
@@ -127,29 +141,104 @@ theorem exp_sub_int_mul_log (B : ℕ) (hB : 0 < B) (w : ℝ) (e : ℤ) :
   have hB' : (0 : ℝ) < (B : ℝ) := by exact_mod_cast hB
   rw [Real.exp_sub, mul_comm, ← Real.rpow_def_of_pos hB', Real.rpow_intCast]
 
-theorem expScaledEncl_encloses (B : ℕ) (hB : 0 < B) (x : ℚ) (e : ℤ) (n : ℕ) :
-    Encloses (expScaledEncl B x e n) (Real.exp (x : ℝ) / (B : ℝ) ^ e) := by
+theorem subLogs_sound (B : ℕ) (hB : 0 < B) (a : ℚ × ℚ) (w : ℝ) (ha : Encloses a w) (e : ℤ) (n : ℕ) :
+    Encloses (subLogs B a e n) (w - (e : ℝ) * Real.log (B : ℝ)) := by
   have hBq : (0 : ℚ) < (B : ℚ) := by exact_mod_cast hB
-  rw [← exp_sub_int_mul_log B hB]
-  unfold expScaledEncl
+  unfold subLogs
   have hl := scaleInt_sound e _ _ (lnEncl_sound (B : ℚ) (n + e.natAbs.log2 + 3) hBq).1
     (lnEncl_sound (B : ℚ) (n + e.natAbs.log2 + 3) hBq).2
   have hl' : Encloses (scaleInt e (lnEncl (B : ℚ) (n + e.natAbs.log2 + 3))) ((e : ℝ) * Real.log (B : ℝ)) := by
     simpa [Encloses] using hl
+  exact sub_encl a _ _ _ ha hl'
+
+theorem expScaledEncl_encloses (B : ℕ) (hB : 0 < B) (x : ℚ) (e : ℤ) (n : ℕ) :
+    Encloses (expScaledEncl B x e n) (Real.exp (x : ℝ) / (B : ℝ) ^ e) := by
+  rw [← exp_sub_int_mul_log B hB]
+  unfold expScaledEncl
   have hx : Encloses ((x, x) : ℚ × ℚ) (x : ℝ) := ⟨le_refl _, le_refl _⟩
-  exact exp_of_encl _ _ (sub_encl (x, x) _ _ _ hx hl') _ _
+  exact exp_of_encl _ _ (subLogs_sound B hB _ _ hx e n) _ _
 
 theorem powfScaledEncl_encloses (B : ℕ) (hB : 0 < B) (x y : ℚ) (hx : 0 < x) (e : ℤ) (n : ℕ) :
     Encloses (powfScaledEncl B x y e n) ((x : ℝ) ^ (y : ℝ) / (B : ℝ) ^ e) := by
-  have hBq : (0 : ℚ) < (B : ℚ) := by exact_mod_cast hB
   have hx' : (0 : ℝ) < (x : ℝ) := by exact_mod_cast hx
   rw [Real.rpow_def_of_pos hx', mul_comm, ← exp_sub_int_mul_log B hB]
   unfold powfScaledEncl
-  have hl := scaleInt_sound e _ _ (lnEncl_sound (B : ℚ) (n + e.natAbs.log2 + 3) hBq).1
-    (lnEncl_sound (B : ℚ) (n + e.natAbs.log2 + 3) hBq).2
-  have hl' : Encloses (scaleInt e (lnEncl (B : ℚ) (n + e.natAbs.log2 + 3))) ((e : ℝ) * Real.log (B : ℝ)) := by
-    simpa [Encloses] using hl
-  exact exp_of_encl _ _ (sub_encl _ _ _ _ (scaleRat_sound y _ _ (lnEncl_sound x _ hx)) hl') _ _
+  exact exp_of_encl _ _ (subLogs_sound B hB _ _ (scaleRat_sound y _ _ (lnEncl_sound x _ hx)) e n) _ _
+
+theorem le_absQ (q : ℚ) : q ≤ absQ q := by
+  unfold absQ; split_ifs with h
+  · exact le_refl _
+  · linarith [not_le.mp h]
+
+theorem absQ_nonneg (q : ℚ) : 0 ≤ absQ q := by
+  unfold absQ; split_ifs with h
+  · exact h
+  · linarith [not_le.mp h]
+
+theorem lt_two_pow_magBound' (r u : ℚ) :
+    ((absQ r : ℚ) : ℝ) + ((absQ u : ℚ) : ℝ) < (2 : ℝ) ^ magBound r u := by
+  unfold magBound
+  have h0 : 0 ≤ absQ r + absQ u := add_nonneg (absQ_nonneg r) (absQ_nonneg u)
+  have h1 := lt_floorNat_succ _ h0
+  have h2 : floorNat (absQ r + absQ u) + 1 < 2 ^ ((floorNat (absQ r + absQ u) + 1).log2 + 1) :=
+    Nat.lt_log2_self
+  have h3 : ((floorNat (absQ r + absQ u) + 1 : ℕ) : ℚ)
+      < ((2 ^ ((floorNat (absQ r + absQ u) + 1).log2 + 1) : ℕ) : ℚ) := by exact_mod_cast h2
+  have h4 := lt_trans h1 h3
+  have h5 : ((absQ r + absQ u : ℚ) : ℝ) < (((2 ^ ((floorNat (absQ r + absQ u) + 1).log2 + 1) : ℕ) : ℚ) : ℝ) := by
+    exact_mod_cast h4
+  push_cast at h5
+  exact h5
+
+theorem lt_two_pow_magBound (r u : ℚ) : (r : ℝ) + (u : ℝ) < (2 : ℝ) ^ magBound r u := by
+  unfold magBound
+  have h0 : 0 ≤ absQ r + absQ u := add_nonneg (absQ_nonneg r) (absQ_nonneg u)
+  have h1 := lt_floorNat_succ _ h0
+  have h2 : floorNat (absQ r + absQ u) + 1 < 2 ^ ((floorNat (absQ r + absQ u) + 1).log2 + 1) :=
+    Nat.lt_log2_self
+  have h3 : ((floorNat (absQ r + absQ u) + 1 : ℕ) : ℚ)
+      < ((2 ^ ((floorNat (absQ r + absQ u) + 1).log2 + 1) : ℕ) : ℚ) := by exact_mod_cast h2
+  have h4 : r + u < ((2 ^ ((floorNat (absQ r + absQ u) + 1).log2 + 1) : ℕ) : ℚ) :=
+    lt_of_le_of_lt (add_le_add (le_absQ r) (le_absQ u)) (lt_trans h1 h3)
+  have h5 : ((r + u : ℚ) : ℝ) < (((2 ^ ((floorNat (absQ r + absQ u) + 1).log2 + 1) : ℕ) : ℚ) : ℝ) := by
+    exact_mod_cast h4
+  push_cast at h5
+  exact h5
+
+/-- the cheap pre-test of the scaled certificates is a proof of violation -/
+theorem tooBig_violation (w : ℚ × ℚ) (W : ℝ) (hw : Encloses w W) (r u : ℚ) (exact : Bool)
+    (h : tooBig w r u = true) : ¬ Within r u exact (Real.exp W) := by
+  unfold tooBig at h
+  have hk : ((magBound r u : ℕ) : ℚ) ≤ w.1 := of_decide_eq_true h
+  have hk' : ((magBound r u : ℕ) : ℝ) ≤ W := le_trans (by exact_mod_cast hk) hw.1
+  have h1 : (2 : ℝ) ^ magBound r u ≤ Real.exp W :=
+    le_trans (two_pow_le_exp _) (Real.exp_le_exp.mpr hk')
+  have h2 := lt_two_pow_magBound r u
+  rintro ⟨hw1, _⟩
+  rcases hw1 with hw1 | hw1
+  · rw [abs_lt] at hw1
+    linarith
+  · have hu : (0 : ℝ) ≤ (u : ℝ) ∨ (u : ℝ) < 0 := le_or_gt 0 _
+    have hr : (r : ℝ) ≤ ((absQ r : ℚ) : ℝ) := by exact_mod_cast le_absQ r
+    have hua : (0 : ℝ) ≤ ((absQ u : ℚ) : ℝ) := by exact_mod_cast absQ_nonneg u
+    have h3 := lt_two_pow_magBound' r u
+    linarith
+
+/-- `x = s^b` with `b = y.den`: then `x^y = s^(y.num)` -/
+theorem rpow_of_root (s x y : ℚ) (hs : 0 < s) (hx : s ^ y.den = x) :
+    (x : ℝ) ^ (y : ℝ) = (s : ℝ) ^ y.num := by
+  have hs' : (0 : ℝ) < (s : ℝ) := by exact_mod_cast hs
+  have hd : ((y.den : ℕ) : ℝ) ≠ 0 := by exact_mod_cast y.den_ne_zero
+  have hxr : (x : ℝ) = (s : ℝ) ^ ((y.den : ℕ) : ℝ) := by
+    rw [Real.rpow_natCast, ← hx]; push_cast; rfl
+  rw [hxr, ← Real.rpow_mul hs'.le, ← Real.rpow_intCast]
+  congr 1
+  have hy : (y : ℝ) = (y.num : ℝ) / (y.den : ℝ) := by
+    have := Rat.num_div_den y
+    rw [← this]
+    push_cast
+    simp [Rat.num_div_den]
+  rw [hy]; field_simp
 
 /-! ### from the scaled comparison back to the unscaled statement -/
 
@@ -167,42 +256,40 @@ theorem ulp_eq_scaled (B : ℕ) (hB : 0 < B) (sig e : ℤ) (p : ℕ) :
     rw [← zpow_add₀ hB']
     congr 1; ring
 
-/-- a scaled certificate is a certificate -/
-theorem within_of_scaled (B : ℕ) (hB : 0 < B) (sig e : ℤ) (p : ℕ) (exact : Bool) (V : ℝ)
-    (h : Within (sig : ℚ) (ulpScaled B sig p) exact (V / (B : ℝ) ^ e)) :
-    Within (fval B sig e) (ulp B sig e p) exact V := by
+theorem scaled_eq_iff (B : ℕ) (hB : 0 < B) (sig e : ℤ) (V : ℝ) :
+    (((sig : ℚ) : ℝ) = V / (B : ℝ) ^ e) ↔ (((fval B sig e : ℚ) : ℝ) = V) := by
   have hB' : (0 : ℝ) < (B : ℝ) := by exact_mod_cast hB
   have hpow : (0 : ℝ) < (B : ℝ) ^ e := zpow_pos hB' e
-  obtain ⟨h1, h2⟩ := h
-  unfold Within
-  rw [fval_cast, ulp_eq_scaled B hB]
+  rw [fval_cast]
+  push_cast
   constructor
-  · have e1 : (sig : ℝ) * (B : ℝ) ^ e - V = (((sig : ℚ) : ℝ) - V / (B : ℝ) ^ e) * (B : ℝ) ^ e := by
-      push_cast; field_simp
-    rw [e1, abs_mul, abs_of_pos hpow]
-    exact mul_lt_mul_of_pos_right h1 hpow
-  · intro he
-    have := h2 he
-    push_cast at this
-    rw [this]; field_simp
+  · intro h; rw [h]; field_simp
+  · intro h; rw [← h]; field_simp
+
+theorem scaled_lt_iff (B : ℕ) (hB : 0 < B) (sig e : ℤ) (p : ℕ) (V : ℝ) :
+    (|((sig : ℚ) : ℝ) - V / (B : ℝ) ^ e| < ((ulpScaled B sig p : ℚ) : ℝ)) ↔
+    (|((fval B sig e : ℚ) : ℝ) - V| < ((ulp B sig e p : ℚ) : ℝ)) := by
+  have hB' : (0 : ℝ) < (B : ℝ) := by exact_mod_cast hB
+  have hpow : (0 : ℝ) < (B : ℝ) ^ e := zpow_pos hB' e
+  rw [fval_cast, ulp_eq_scaled B hB]
+  have e1 : (sig : ℝ) * (B : ℝ) ^ e - V = (((sig : ℚ) : ℝ) - V / (B : ℝ) ^ e) * (B : ℝ) ^ e := by
+    push_cast; field_simp
+  rw [e1, abs_mul, abs_of_pos hpow]
+  exact (mul_lt_mul_iff_left₀ hpow).symm
+
+/-- a scaled certificate is a certificate, and conversely -/
+theorem within_scaled_iff (B : ℕ) (hB : 0 < B) (sig e : ℤ) (p : ℕ) (exact : Bool) (V : ℝ) :
+    Within (sig : ℚ) (ulpScaled B sig p) exact (V / (B : ℝ) ^ e) ↔
+    Within (fval B sig e) (ulp B sig e p) exact V := by
+  unfold Within
+  rw [scaled_lt_iff B hB, scaled_eq_iff B hB]
+
+theorem within_of_scaled (B : ℕ) (hB : 0 < B) (sig e : ℤ) (p : ℕ) (exact : Bool) (V : ℝ)
+    (h : Within (sig : ℚ) (ulpScaled B sig p) exact (V / (B : ℝ) ^ e)) :
+    Within (fval B sig e) (ulp B sig e p) exact V := (within_scaled_iff B hB sig e p exact V).mp h
 
 theorem scaled_of_within (B : ℕ) (hB : 0 < B) (sig e : ℤ) (p : ℕ) (exact : Bool) (V : ℝ)
     (h : Within (fval B sig e) (ulp B sig e p) exact V) :
-    Within (sig : ℚ) (ulpScaled B sig p) exact (V / (B : ℝ) ^ e) := by
-  have hB' : (0 : ℝ) < (B : ℝ) := by exact_mod_cast hB
-  have hpow : (0 : ℝ) < (B : ℝ) ^ e := zpow_pos hB' e
-  obtain ⟨h1, h2⟩ := h
-  unfold Within at *
-  rw [fval_cast, ulp_eq_scaled B hB] at h1
-  rw [fval_cast] at h2
-  constructor
-  · have e1 : (sig : ℝ) * (B : ℝ) ^ e - V = (((sig : ℚ) : ℝ) - V / (B : ℝ) ^ e) * (B : ℝ) ^ e := by
-      push_cast; field_simp
-    rw [e1, abs_mul, abs_of_pos hpow] at h1
-    exact lt_of_mul_lt_mul_right h1 hpow.le
-  · intro he
-    have := h2 he
-    push_cast
-    rw [← this]; field_simp
+    Within (sig : ℚ) (ulpScaled B sig p) exact (V / (B : ℝ) ^ e) := (within_scaled_iff B hB sig e p exact V).mpr h
 
 end Dashu.Model.Trans
